@@ -196,7 +196,8 @@ fn alphabet(run: &Run) -> Vec<Tx> {
     let mut txs = Vec::new();
     let upd = |name: &str, new: Val, exp: Exp, deref: bool| Ed { name: name.into(), new: Some(new), exp, deref, log_only: false };
     let del = |name: &str, exp: Exp, deref: bool| Ed { name: name.into(), new: None, exp, deref, log_only: false };
-    for init in 0..3u8 {
+    // the richest initial store (packed refs + a loose ref shadowing a stale packed value) first: a capped run covers it first
+    for init in [2u8, 1, 0] {
         let a_old = if init == 2 { Val::Id(2) } else { Val::Id(1) };
         for packed in 0..3u8 {
             let mut singles: Vec<Ed> = vec![
@@ -225,8 +226,10 @@ fn alphabet(run: &Run) -> Vec<Tx> {
                     Ed { name: "refs/heads/a".into(), new: Some(Val::Id(2)), exp: Exp::Any, deref: false, log_only: true },
                 ]);
             }
-            for e in singles {
-                if q && packed == 2 && init == 0 && e.new.is_none() {
+            for (ei, e) in singles.into_iter().enumerate() {
+                // quick: the full single-edit alphabet on store 2 only; on the simpler stores a representative third
+                // (update a, delete a, create new, HEAD through deref, delete tag) with two packed-refs modes
+                if q && init != 2 && !(matches!(ei, 0 | 3 | 5 | 9 | 11) && packed != 1) {
                     continue;
                 }
                 txs.push(Tx { init, edits: vec![e], packed });
@@ -242,7 +245,7 @@ fn alphabet(run: &Run) -> Vec<Tx> {
                 pairs.push(vec![upd("refs/heads/sym", Val::Id(2), Exp::Any, true), upd("refs/heads/new", Val::Sym("refs/heads/a".into()), Exp::Any, false)]);
             }
             for p in pairs {
-                if q && packed == 1 {
+                if q && (packed == 1 || init != 2) {
                     continue;
                 }
                 txs.push(Tx { init, edits: p, packed });
